@@ -113,6 +113,16 @@ PWExprFrom(pw, i) ==
     ELSE Ite(pw[i].c, pw[i].e, PWExprFrom(pw, i + 1))
 PWExpr(pw) == PWExprFrom(pw, 1)
 
+\* named constants replaced by the values they have in the view ft (an inlined callee sees ITS bindings)
+RECURSIVE ResolveConsts(_, _)
+ResolveConsts(e, ft) ==
+    IF e.k = "const" THEN (IF e.name \in DOMAIN ft /\ ft[e.name].k = "const" THEN Lit(ft[e.name].v) ELSE e)
+    ELSE IF e.k \in UnOps THEN [e EXCEPT !.a = ResolveConsts(e.a, ft)]
+    ELSE IF e.k \in BinOps THEN [e EXCEPT !.a = ResolveConsts(e.a, ft), !.b = ResolveConsts(e.b, ft)]
+    ELSE IF e.k = "ite" THEN [e EXCEPT !.c = ResolveConsts(e.c, ft), !.a = ResolveConsts(e.a, ft), !.b = ResolveConsts(e.b, ft)]
+    ELSE IF e.k \in NaryOps THEN [e EXCEPT !.args = [j \in DOMAIN e.args |-> ResolveConsts(e.args[j], ft)]]
+    ELSE e
+
 RECURSIVE Inline(_, _, _)
 Inline(e, ft, mode) ==
     IF e.k = "call" /\ e.name \in DOMAIN ft /\ ft[e.name].k = "fn" /\ BindOk(ft[e.name], e)
@@ -123,7 +133,8 @@ Inline(e, ft, mode) ==
                          LET j == ArgFor(f, e, m)
                          IN IF j = 0 THEN Lit(DefsOf(f)[m - FirstDef(f) + 1]) ELSE given[j]]
              pw == ToPW(f.params, f.body, mode)
-             inner == Inline(PWExpr(pw), ft, mode)
+             cv == CalleeView(f, ft)           \* the callee resolves ITS names: module globals + its own scope chain
+             inner == Inline(ResolveConsts(PWExpr(pw), cv), cv, mode)
          IN IF mode.sim
             THEN Subst(inner, [x \in SeqRange(f.params) |-> args[CHOOSE j \in DOMAIN f.params : f.params[j] = x]])
             ELSE SubstSeq(inner, f.params, args, 1)
